@@ -47,6 +47,10 @@ def run(ctx):
     G5.TAB_EXTRAS = 0.5
     texts += [G5.render(rng, G5.document(rng)) for _ in range(ctx.n(300, 3000))]
     G5.TAB_EXTRAS = 0.0
+    # ordinary text lines of licenses, comments and the like indented with a tab
+    G5.TAB_TEXT = True
+    texts += [G5.render(rng, G5.document(rng)) for _ in range(ctx.n(300, 3000))]
+    G5.TAB_TEXT = False
     texts += ['Files: *\nCopyright: x\nLicense: y\nFoo: a\n b\n', 'Format: f\nX-A: a\n b\n .\n  c\n\nFiles: *\nCopyright: 2019 x\nLicense: MIT\n t\n']
     fails = ctx.prop('prop:render-fixpoint', texts, p_fixpoint)
     fails += ctx.prop('prop:observing-changes-nothing', texts[:ctx.n(700, 8000)], _copy.p_observe)
